@@ -20,7 +20,7 @@ DTYPES = ['int32', 'int64', 'uint16', 'uint32']
 
 
 def imports():
-    core.import_phylib('phylib.io.array')
+    core.import_phylib('phylib.io.array', 'phylib.io.model')
 
 
 def ref_groups(v, ids):
